@@ -2,6 +2,7 @@ package work
 
 import (
 	"bufio"
+	"bytes"
 	"fmt"
 	"io"
 	"math/rand"
@@ -1072,6 +1073,37 @@ func c17pending(c Case, env *Env, res *Result, viol func(string, string), tm map
 			close(sink.gate)
 			close(src.gate)
 			continue
+		}
+		// a holder that wrote into its own *bytes.Buffer and returned the object before using the buffer: the next
+		// holder's ONE-SHOT calls are that holder's business and leave the buffer alone
+		{
+			own := &bytes.Buffer{}
+			o2 := p.Get()
+			Guard(func() {
+				switch t := o2.(type) {
+				case *hessian.Encoder:
+					t.WriteTo(own, "first holder")
+				case hessian.Serializer:
+					t.WriteTo(own, "first holder")
+				}
+			})
+			snap := append([]byte{}, own.Bytes()...)
+			p.Return(o2)
+			o3 := p.Get()
+			Guard(func() {
+				switch t := o3.(type) {
+				case *hessian.Encoder:
+					t.Encode("the second holder's one-shot value")
+				case hessian.Serializer:
+					t.ToBytes("the second holder's one-shot value")
+					t.ToObject(wire)
+				}
+			})
+			res.Count("one_shot_calls_after_a_holder_with_its_own_buffer", 1)
+			if !bytes.Equal(own.Bytes(), snap) {
+				viol("previous-holder-touched", fmt.Sprintf("a one-shot call by the next holder of a %s object (size %d) changed the previous holder's buffer from %x to %x", ctorNames[c.K], c.N, snap, own.Bytes()))
+			}
+			p.Return(o3)
 		}
 		for step, call := range []func(){func() { p.Return(o) }, func() { p.Get() }} {
 			done := make(chan struct{})
